@@ -39,8 +39,11 @@ func c03Profile() Profile {
 }
 
 func genC03(t *rapid.T) WorldCase {
-	g := newG(t, c03Profile())
+	p := c03Profile()
+	p.Pods = true
+	g := newG(t, p)
 	g.genWorld()
+	g.genPods(20)
 	c := WorldCase{Params: ctlsim.Params{
 		Shards:         rapid.SampledFrom([]int{0, 0, 2}).Draw(t, "shards"),
 		DefaultBackend: rapid.SampledFrom([]string{"", "", "a/s1", "b/s2", "a/s9"}).Draw(t, "defback"),
